@@ -236,6 +236,7 @@ fn judge_single(case: &SinkCase, t: &[u8], run: &OneShot, mon: &mut Mon, ctx: &s
             None => "Zero",
         };
         mon.count(if f.hard.is_some() { "c07.hard_fired" } else { "c07.zero_fired" });
+        mon.count_dyn(format!("write_fault_fired.{}", kind));
         mon.tuple(format!("fault|{}|{}|{}|{}|{}", class, kind, adapter, entry, if run.result_ok { "ok" } else { "err" }));
         mon.count_dyn(format!("write_fault_in.{}", class));
         if run.result_ok {
